@@ -62,6 +62,36 @@ def check_parse(ctx, strings, stream):
             if not ok:
                 ctx.violation(f'round-trip:{s!r}', {'case': {'kind': 'parse', 's': s}, 'impl': impl,
                                                     'theorem': 'Hpv.Props.C04.round_trip'})
+            elif nontrivial or len(s) % 3 == 0:
+                # copies of a TermId are the TermId (equal, same hash, found in a set); a str subclass / str-valued enum member is parsed
+                # from its characters
+                import copy
+                import enum
+                import pickle
+                why = None
+                try:
+                    for how, clone in (('pickle', lambda x: pickle.loads(pickle.dumps(x))), ('deepcopy', copy.deepcopy), ('copy', copy.copy)):
+                        c2 = clone(t)
+                        if not (c2 == t and hash(c2) == hash(t) and c2 in {t} and (c2.prefix, c2.id, c2.value) == (t.prefix, t.id, t.value)):
+                            why = f'{how} of the TermId differs from it (eq {c2 == t}, same hash {hash(c2) == hash(t)})'
+                            break
+                    if why is None:
+                        E = enum.Enum('E', {'M': s}, type=str)
+                        for label, arg in (('str subclass', _Sub(s)), ('str-valued enum member', E.M)):
+                            t3 = TermId.from_curie(arg)
+                            if not (t3 == t and hash(t3) == hash(t) and t3.value == t.value):
+                                why = f'from_curie(<{label} {s!r}>) = {t3.value!r}, from_curie({s!r}) = {t.value!r}'
+                                break
+                except Exception as e:  # noqa
+                    why = f'raises {type(e).__name__}: {e}'
+                if why:
+                    ctx.violation('copies-and-str-subclasses', {'case': {'kind': 'parse', 's': s, 'cps': cps(s)}, 'impl': why,
+                                                                'theorem': 'Hpv.Props.C04.eq_iff / hash_eq / round_trip'})
+
+
+class _Sub(str):
+    def __str__(self):
+        return 'not the characters'
 
 
 def mk_ids(specs):
